@@ -4960,28 +4960,12 @@ bool SoPlexBase<R>::getBasisInverseColReal(int c, R* coef, int* inds, int* ninds
          {
             if(unscale && _solver.isScaled())
             {
-               int scaleExp = -_scaler->getRowScaleExp(index);
+               // the scaled row c is 2^(row exponent of c) times the unscaled one; the solution x stays in the scaled
+               // space and is unscaled below, when the entries of the result are assembled
+               int scaleExp = _scaler->getRowScaleExp(c);
                DSVectorBase<R> rhs(1);
-               rhs.add(index, spxLdexp(1.0, scaleExp));
+               rhs.add(index, spxLdexp(R(1.0), scaleExp));
                _solver.basis().coSolve(x, rhs);
-               x.setup();
-               int size = x.size();
-
-               // apply scaling based on \tilde{C}
-               for(int i = 0; i < size; i++)
-               {
-                  int idx = bind[x.index(i)];
-
-                  if(idx < 0)
-                  {
-                     idx = -idx - 1;
-                     scaleExp = _scaler->getRowScaleExp(idx);
-                  }
-                  else
-                     scaleExp = - _scaler->getColScaleExp(idx);
-
-                  spxLdexp(x.value(i), scaleExp);
-               }
             }
             else
             {
@@ -5009,17 +4993,10 @@ bool SoPlexBase<R>::getBasisInverseColReal(int c, R* coef, int* inds, int* ninds
                assert(idx < numRows());
                assert(!_solver.isRowBasic(idx));
 
-               if(unscale && _solver.isScaled())
-               {
-                  DSVectorBase<R> r_unscaled(numCols());
-                  _solver.getRowVectorUnscaled(idx, r_unscaled);
-                  coef[i] = - (r_unscaled * x);
-               }
-               else
-                  coef[i] = - (_solver.rowVector(idx) * x);
+               coef[i] = - (_solver.rowVector(idx) * x);
 
                if(unscale && _solver.isScaled())
-                  coef[i] = spxLdexp(coef[i], _scaler->getRowScaleExp(idx));
+                  coef[i] = spxLdexp(coef[i], - _scaler->getRowScaleExp(idx));
             }
             else
             {
